@@ -502,6 +502,6 @@ def run(env: Env) -> Outcome:
                 "and sqlite vs the Lean model, row compared after every op; non-trivial = a terminal status was written; distinct by "
                 "(store, op stream). (S) scripted workflows on the full stack: every outcome x fault plan x store x idle layer; "
                 "non-trivial = the row was written more than once; distinct by (case, schedule)")
-    _corr(env, out, env.budget(200, 6000), env.budget(40, 1500))
-    _search(env, out, env.budget(300, 9000))
+    _corr(env, out, env.budget(200, 4500), env.budget(40, 1000))
+    _search(env, out, env.budget(300, 7000))
     return out
